@@ -3,42 +3,56 @@
    model coq/Sched.v (kept in lock-step with the real code by rt/h_sched.c)
    for ONE kernel thread, the repaired code (`to_store = true`: schedule()
    pushes on store_to, which is what /repo contains), ANY program of
-   spawn / yield / block / wake / idle / balance calls of any length, any
-   schedule.  Hypothesis on the program: the fiber ids it spawns are in 1..N
-   (`prog_ok N prog`; id 0 is the model's NULL).  N is therefore a bound on the
-   number of fibers that ever exist.
+   spawn / yield / block / wake / idle / balance / park-saving / flip calls of
+   any length, any schedule.  Hypothesis on the program: the fiber ids it
+   spawns are at most N (`prog_ok N prog`; ids outside 1..32 are refused by the
+   model and the harness alike).  N is therefore a bound on the number of
+   fibers that ever exist.
 
    Vocabulary (coq/SchedProofs.v):
      Fq s = dq s (sfrom s 0)      the batch being drained, head = next pop
      Sq s = dq s (3 - sfrom s 0)  the batch being filled, head = last push
             (= dq s (sto s 0) except between the two stores of the swap, pc PN5)
      held T   = the current fiber of the thread and the fibers in the locals of
-                its pc (PN8/PN9 x, PY2/PY3/PY4/PI1 nf, PSched f, PL2 stolen)
+                its pc (PN8/PN9 x, PY2/PY3/PY4/PI1 nf, PSched f, PW2/PP2 f, PL2 stolen)
      places s = held (thr s 0) ++ Fq s ++ Sq s
-     fiber states: 0 none, 1 RUNNING, 2 READY, 3 WAITING
+     fiber states: 0 none, 1 RUNNING, 2 READY, 3 WAITING, 5 SAVING_STATE_TO_WAIT
+     inwq s f = f is parked in a wait queue outside the scheduler
+     park-saving f: a waker schedules the parked fiber f with state SAVING;
+     flip f: SAVING -> WAITING (the maintenance of f's successor); next()
+     re-queues a popped SAVING fiber on store_to (pc PN9) and returns it only
+     after the flip (then its state is WAITING and it is not in a wait queue).
    Instrumented machine `ist` = model state + ghosts (erasure: lstep_erase,
    ireach_base, reachable_ireach, irun_erase):
-     byp x g = number of times next() handed out ANOTHER fiber while g was
-               READY since g was last handed out (0 whenever g is not READY);
-               a hand-out is the PN8 step that does not take the SAVING branch
+     byp x g = number of times next() handed out ANOTHER fiber while g was in
+               the deques and not SAVING, since g was last handed out (0
+               whenever g is SAVING or neither queued nor just popped); a
+               hand-out is the PN8 step that does not take the SAVING branch;
+               the SAVING re-queue changes no counter
      hand x  = log of the fibers handed out by next(), oldest first. *)
 From Coq Require Import List ZArith Arith.
 From LF Require Import Conc Sched SchedProofs.
 Import ListNotations.
 
 (* Conservation (used by C02): every existing fiber is in at most one place;
-   queued entries are READY; every RUNNING or READY fiber has a place (no
-   queued entry is ever dropped, and next() hands a fiber out at most once per
-   schedule() of it, because an entry handed out leaves the deques and the
-   deques never hold a fiber twice); a fiber in no place is WAITING (parked
-   outside the scheduler) or does not exist; at most N fibers exist. *)
+   queued entries are READY, SAVING, or WAITING-after-a-flip; every fiber that
+   is RUNNING, READY, SAVING, or WAITING but not parked in a wait queue has a
+   place (no queued entry is ever dropped, and next() hands a fiber out at most
+   once per schedule() of it, because an entry handed out leaves the deques and
+   the deques never hold a fiber twice); a fiber parked in a wait queue is
+   WAITING and in no place; a fiber handed out by next() is never SAVING; at
+   most N fibers exist. *)
 Theorem sched_conservation_1thread : forall N prog s,
   prog_ok N prog -> reachable M (fst (init true [prog])) s ->
   NoDup (places s) /\
-  (forall f, In f (Fq s ++ Sq s) -> fstt s f = 2%Z) /\
-  (forall f, fstt s f = 1%Z \/ fstt s f = 2%Z -> In f (places s)) /\
+  (forall f, In f (Fq s ++ Sq s) ->
+     fstt s f = 2%Z \/ fstt s f = 5%Z \/ (fstt s f = 3%Z /\ inwq s f = false)) /\
+  (forall f, fstt s f = 1%Z \/ fstt s f = 2%Z \/ fstt s f = 5%Z \/ (fstt s f = 3%Z /\ inwq s f = false) ->
+     In f (places s)) /\
+  (forall f, inwq s f = true -> fstt s f = 3%Z /\ ~ In f (places s)) /\
+  (forall nf, handed s nf -> fstt s nf = 2%Z \/ fstt s nf = 3%Z) /\
   (forall f, In f (places s) -> fstt s f <> 0%Z /\ 1 <= f <= N) /\
-  (forall f, fstt s f = 0 \/ fstt s f = 1 \/ fstt s f = 2 \/ fstt s f = 3)%Z /\
+  (forall f, fstt s f = 0 \/ fstt s f = 1 \/ fstt s f = 2 \/ fstt s f = 3 \/ fstt s f = 5)%Z /\
   length (places s) <= N /\
   (sfrom s 0 = 1 \/ sfrom s 0 = 2) /\
   ((forall k tmp, pc (thr s 0) <> PN5 k tmp) -> sto s 0 = 3 - sfrom s 0).
@@ -46,16 +60,19 @@ Proof. intros N prog s Hp R. exact (conservation_of_inv N s (reachable_inv N pro
 Print Assumptions sched_conservation_1thread.
 
 (* Bounded bypass: in every reachable state every fiber has been bypassed at
-   most 2(N-1) times since it became READY, however long the others keep
-   yielding.  By position: a fiber in the batch being filled has at most
-   N-1 bypasses minus the length of the batch being drained; a fiber at index p
-   of the batch being drained has at most 2(N-1) - p.
-   (The constant 2(N-1) is the one of DESIGN.md and of the monitor in
-   tools/vf/props/C10.py; it is not claimed to be tight.) *)
+   most 2(N-1) times since it became runnable (scheduled READY, or flipped after
+   having been scheduled SAVING), however long the others keep yielding.  A
+   SAVING fiber cannot be handed out; its counter is 0 until the flip, and
+   re-queueing it costs nobody a bypass.  By position: a fiber in the batch
+   being filled has at most N-1 bypasses minus the length of the batch being
+   drained; a fiber at index p of the batch being drained has at most
+   2(N-1) - p.  (The constant 2(N-1) is the one of DESIGN.md and of the monitor
+   in tools/vf/props/C10.py; it is not claimed to be tight.) *)
 Theorem yield_bounded_bypass : forall N prog x g,
   prog_ok N prog -> ireach true prog x ->
   byp x g <= 2 * (N - 1) /\
-  (fstt (base x) g <> 2%Z -> byp x g = 0) /\
+  (fstt (base x) g = 5%Z \/
+   (~ In g (Fq (base x) ++ Sq (base x)) /\ forall k, pc (thr (base x) 0) <> PN8 k g) -> byp x g = 0) /\
   (In g (Sq (base x)) -> byp x g + length (Fq (base x)) + 1 <= N) /\
   (forall p, nth_error (Fq (base x)) p = Some g -> byp x g + p + 2 <= 2 * N).
 Proof.
@@ -66,16 +83,16 @@ Qed.
 Print Assumptions yield_bounded_bypass.
 
 (* Polling loops cannot starve the fiber they wait for: from any reachable
-   state in which g is READY and queued, in EVERY continuation `sch` of the
-   execution the fibers handed out by next() in that continuation (`l`) either
-   include g or number at most 2(N-1) - byp g.  So whoever keeps calling
-   fiber_yield gets g run within 2(N-1)+1 hand-outs. *)
+   state in which g is queued and not SAVING (READY, or flipped), in EVERY
+   continuation `sch` of the execution the fibers handed out by next() in that
+   continuation (`l`) either include g or number at most 2(N-1) - byp g.  So
+   whoever keeps calling fiber_yield gets g run within 2(N-1)+1 hand-outs. *)
 Theorem yield_poll_loop_progress : forall N prog x g sch,
   prog_ok N prog -> ireach true prog x ->
-  fstt (base x) g = 2%Z -> In g (Fq (base x) ++ Sq (base x)) ->
+  fstt (base x) g <> 5%Z -> In g (Fq (base x) ++ Sq (base x)) ->
   exists l, hand (irun x sch) = hand x ++ l /\
             (In g l \/ byp x g + length l <= 2 * (N - 1)).
-Proof. intros N prog x g sch Hp R _ Hq. exact (poll_progress N prog x g sch Hp R Hq). Qed.
+Proof. intros N prog x g sch Hp R H5 Hq. exact (poll_progress N prog x g sch Hp R H5 Hq). Qed.
 Print Assumptions yield_poll_loop_progress.
 
 (* The pinned code (schedule() pushes on schedule_from, `init false`) violates
@@ -178,3 +195,25 @@ Example ex_pn8_reachable :
   reachable M (fst (init true [ex_prog])) s /\ pc (thr s 0) = PN8 KIdle 3 /\ places s = [3; 2; 1] /\
   Fq s = [2; 1].
 Proof. split; [apply run_sched_reachable; constructor | vm_compute; repeat split; reflexivity]. Qed.
+
+(* the SAVING path: fiber 3 blocks, is scheduled while SAVING (park-saving),
+   is popped and re-queued by next() (pc PN9), flipped, and then handed out *)
+Definition sv_prog := [OSpawn 1; OSpawn 2; OSpawn 3; OIdle; OBlock; OPark 3; OYield; OYield; OYield;
+                       OFlip 3; OYield; OYield; OYield; OYield].
+
+Example sv_prog_ok : prog_ok 3 sv_prog.
+Proof.
+  intros f H. cbn in H. repeat (destruct H as [H|H]; [inversion H; subst; auto with arith|]). destruct H.
+Qed.
+
+Example ex_saving_requeue_reachable :
+  let x := irun (iinit true sv_prog) (repeat 0 57) in
+  ireach true sv_prog x /\ pc (thr (base x) 0) = PN9 (KYield 1) 3 /\ fstt (base x) 3 = 5%Z /\
+  places (base x) = [3; 2; 1] /\ hand x = [3; 2; 1; 2] /\
+  (* the yield that popped it finds nothing else and returns to fiber 2; after the flip: *)
+  let y := irun x (repeat 0 4) in
+  fstt (base y) 3 = 3%Z /\ inwq (base y) 3 = false /\ Sq (base y) = [3; 1] /\ hand y = hand x /\
+  hand (irun y (repeat 0 9)) = hand y ++ [3].
+Proof.
+  split; [apply ireach_irun; constructor|]. vm_compute. repeat split; reflexivity.
+Qed.
